@@ -146,6 +146,137 @@ check_string(int s, const char* field, const struct String& str,
     }
 }
 
+// ---- after a call during which an allocation was refused -----------------
+// The call may have failed half way.  What the property still promises: every
+// stored string is a live block of the module with its recorded length and
+// terminator, nothing is leaked or released twice (check_world's reachability
+// count), the source is untouched, and no field holds anything but its value
+// from before the call or the value the call was storing (a dimension may
+// also have been cleared: set_dimension and copy release before they store).
+// The model is then taken from the object, field by field.
+static bool
+read_string_after_failure(int s, const char* field, const struct String& str,
+                          Bytes* out)
+{
+    char buf[256];
+    out->clear();
+    if (!str.str) {
+        if (str.nbytes != 0) {
+            snprintf(buf, sizeof(buf),
+                     "%s: after a refused allocation the stored pointer is "
+                     "NULL but the recorded length is %zu",
+                     field, str.nbytes);
+            fail_obj("C13.invalid_after_failed_allocation", s, buf);
+        }
+        return true;
+    }
+    if (str.is_ref || !simseam::track_is_live(str.str) || str.nbytes == 0 ||
+        simseam::track_size(str.str) < str.nbytes) {
+        snprintf(buf, sizeof(buf),
+                 "%s: after a refused allocation the stored pointer is not an "
+                 "owned live block of at least the recorded %zu bytes",
+                 field, str.nbytes);
+        fail_obj("C13.invalid_after_failed_allocation", s, buf);
+    }
+    if (str.str[str.nbytes - 1] != 0) {
+        snprintf(buf, sizeof(buf),
+                 "%s: after a refused allocation the string is not "
+                 "NUL-terminated at its recorded length",
+                 field);
+        fail_obj("C13.invalid_after_failed_allocation", s, buf);
+    }
+    out->assign((const uint8_t*)str.str,
+                (const uint8_t*)str.str + str.nbytes);
+    return true;
+}
+
+static void
+old_or_new(int s, const char* field, const Bytes& got, const Bytes& was,
+           const Bytes& storing, bool may_be_cleared)
+{
+    if (got == was || got == storing || (may_be_cleared && got.empty()))
+        return;
+    char buf[200];
+    snprintf(buf, sizeof(buf),
+             "%s: after a refused allocation the field holds neither its "
+             "previous value nor the value being stored",
+             field);
+    fail_obj("C13.wrong_data_after_failed_allocation", s, buf);
+}
+
+// `was`: model before the call; `storing`: model had the call succeeded
+static void
+resync_after_failure(World& w, int s, const ObjM& was, const ObjM& storing)
+{
+    struct StorageProperties& o = w.obj[s];
+    ObjM m;
+    m.live = true;
+    read_string_after_failure(s, "uri", o.uri, &m.uri);
+    read_string_after_failure(s, "external_metadata_json",
+                              o.external_metadata_json, &m.meta);
+    read_string_after_failure(s, "access_key_id", o.access_key_id, &m.key);
+    read_string_after_failure(s, "secret_access_key", o.secret_access_key,
+                              &m.secret);
+    old_or_new(s, "uri", m.uri, was.uri, storing.uri, false);
+    old_or_new(s, "external_metadata_json", m.meta, was.meta, storing.meta,
+               false);
+    old_or_new(s, "access_key_id", m.key, was.key, storing.key, false);
+    old_or_new(s, "secret_access_key", m.secret, was.secret, storing.secret,
+               false);
+    m.first = o.first_frame_id;
+    m.px = o.pixel_scale_um.x;
+    m.py = o.pixel_scale_um.y;
+    m.ms = o.enable_multiscale;
+    if ((m.first != was.first && m.first != storing.first) ||
+        (m.px != was.px && m.px != storing.px) ||
+        (m.py != was.py && m.py != storing.py) ||
+        (m.ms != was.ms && m.ms != storing.ms))
+        fail_obj("C13.wrong_data_after_failed_allocation", s,
+                 "a scalar field holds neither its previous nor the new value");
+    size_t n = o.acquisition_dimensions.size;
+    const void* arr = o.acquisition_dimensions.data;
+    if ((n == 0) != (arr == nullptr))
+        fail_obj("C13.invalid_after_failed_allocation", s,
+                 "dimension array pointer and count disagree");
+    if (n && (!simseam::track_is_live(arr) ||
+              simseam::track_size(arr) < n * sizeof(struct StorageDimension)))
+        fail_obj("C13.invalid_after_failed_allocation", s,
+                 "dimension array is not a live block of the recorded size");
+    if (n != 0 && n != was.dims.size() && n != storing.dims.size())
+        fail_obj("C13.wrong_data_after_failed_allocation", s,
+                 "the number of dimensions is neither the previous nor the "
+                 "new one");
+    m.dims.resize(n);
+    for (size_t i = 0; i < n; ++i) {
+        const struct StorageDimension& d = o.acquisition_dimensions.data[i];
+        DimM& dm = m.dims[i];
+        char f[64];
+        snprintf(f, sizeof(f), "dimension[%zu].name", i);
+        read_string_after_failure(s, f, d.name, &dm.name);
+        dm.set = !dm.name.empty();
+        dm.kind = (int)d.kind;
+        dm.a = d.array_size_px;
+        dm.c = d.chunk_size_px;
+        dm.sh = d.shard_size_chunks;
+        auto same = [&](const DimM& x) {
+            return x.name == dm.name && x.kind == dm.kind && x.a == dm.a &&
+                   x.c == dm.c && x.sh == dm.sh;
+        };
+        bool ok = same(DimM()); // cleared
+        if (i < was.dims.size() && n == was.dims.size() && same(was.dims[i]))
+            ok = true;
+        if (i < storing.dims.size() && n == storing.dims.size()) {
+            if (same(storing.dims[i]))
+                ok = true;
+        }
+        if (!ok)
+            fail_obj("C13.wrong_data_after_failed_allocation", s,
+                     "a dimension holds neither its previous value, the new "
+                     "one, nor nothing");
+    }
+    w.m[s] = m;
+}
+
 static void
 check_world(World& w)
 {
@@ -167,9 +298,17 @@ check_world(World& w)
         if (!m.live)
             continue;
         struct StorageProperties& o = w.obj[s];
-        check_string(s, "uri", o.uri, m.uri);
-        check_string(s, "external_metadata_json", o.external_metadata_json,
-                     m.meta);
+        // (absent only after an allocation failure inside init)
+        if (!m.uri.empty())
+            check_string(s, "uri", o.uri, m.uri);
+        else if (o.uri.str)
+            fail_obj("C13.field_mismatch", s, "uri set unexpectedly");
+        if (!m.meta.empty())
+            check_string(s, "external_metadata_json", o.external_metadata_json,
+                         m.meta);
+        else if (o.external_metadata_json.str)
+            fail_obj("C13.field_mismatch", s,
+                     "external_metadata_json set unexpectedly");
         // credentials are only materialised once set or copied
         if (!m.key.empty())
             check_string(s, "access_key_id", o.access_key_id, m.key);
@@ -325,7 +464,13 @@ struct PropsHarness : Harness
             } else {
                 snprintf(b, sizeof(b), "destroy s=%d", s);
             }
-            p.ops.push_back(b);
+            std::string line = b;
+            if (profile == "oom" && g.chance(0.3)) {
+                // refuse one allocation inside this call
+                int k = g.chance(0.5) ? 1 : (int)g.range(1, 8);
+                line += " af=" + std::to_string(k);
+            }
+            p.ops.push_back(line);
         }
         return p;
     }
@@ -339,6 +484,23 @@ struct PropsHarness : Harness
         for (auto& line : plan.ops) {
             Op op = parse_op(line);
             int s = (int)(op.i("s") % 3);
+            // af=k: the k-th allocation the module asks for during this call
+            // is refused
+            const int af = (int)op.i("af", 0);
+            auto arm = [&] {
+                if (af > 0)
+                    simseam::track_fail_nth(af);
+            };
+            auto refused = [&]() -> bool {
+                int f = simseam::track_fail_fired();
+                simseam::track_fail_nth(0);
+                if (f) {
+                    probe("fault.allocation_refused");
+                    probe(f == 2 ? "fault.realloc_refused"
+                                 : "fault.malloc_refused");
+                }
+                return f != 0;
+            };
             if (op.name == "init") {
                 if (w->m[s].live)
                     continue; // init memsets: only for fresh storage
@@ -348,16 +510,17 @@ struct PropsHarness : Harness
                 int nd = (int)op.i("dims");
                 struct PixelScale px = { (double)op.i("px"),
                                          (double)op.i("py") };
+                arm();
                 int ok = storage_properties_init(
                   &w->obj[s], (uint32_t)op.i("first"), uri.p, uri.n, meta.p,
                   meta.n, px, (uint8_t)nd);
-                if (!ok)
+                const bool oom = refused();
+                if (!ok && !oom)
                     oracle_fail("C13.call_failed",
                                 "storage_properties_init failed for valid "
                                 "arguments (%s)",
                                 line.c_str());
-                ObjM& m = w->m[s];
-                m = ObjM();
+                ObjM m;
                 m.live = true;
                 m.uri = stored_form(uri.p, uri.n);
                 m.meta = stored_form(meta.p, meta.n);
@@ -365,21 +528,37 @@ struct PropsHarness : Harness
                 m.px = px.x;
                 m.py = px.y;
                 m.dims.resize((size_t)nd);
+                if (oom) {
+                    // a half-initialised object is still the caller's to
+                    // destroy
+                    ObjM zero;
+                    zero.live = true;
+                    resync_after_failure(*w, s, zero, m);
+                    probe("reach.init_refused_allocation");
+                } else
+                    w->m[s] = m;
                 probe("n.inits");
             } else if (op.name == "seturi" || op.name == "setmeta") {
                 if (!w->m[s].live)
                     continue;
                 CStr v;
                 make_str(op.s("v", "null"), &v);
+                arm();
                 int ok = op.name == "seturi"
                            ? storage_properties_set_uri(&w->obj[s], v.p, v.n)
                            : storage_properties_set_external_metadata(
                                &w->obj[s], v.p, v.n);
-                if (!ok)
+                const bool oom = refused();
+                if (!ok && !oom)
                     oracle_fail("C13.call_failed", "%s failed (%s)",
                                 op.name.c_str(), line.c_str());
-                (op.name == "seturi" ? w->m[s].uri : w->m[s].meta) =
+                ObjM storing = w->m[s];
+                (op.name == "seturi" ? storing.uri : storing.meta) =
                   stored_form(v.p, v.n);
+                if (oom)
+                    resync_after_failure(*w, s, w->m[s], storing);
+                else
+                    w->m[s] = storing;
                 probe("n.sets");
             } else if (op.name == "setkeys") {
                 if (!w->m[s].live)
@@ -387,13 +566,20 @@ struct PropsHarness : Harness
                 CStr a, b;
                 make_str(op.s("a", "null"), &a);
                 make_str(op.s("b", "null"), &b);
+                arm();
                 int ok = storage_properties_set_access_key_and_secret(
                   &w->obj[s], a.p, a.n, b.p, b.n);
-                if (!ok)
+                const bool oom = refused();
+                if (!ok && !oom)
                     oracle_fail("C13.call_failed", "set keys failed (%s)",
                                 line.c_str());
-                w->m[s].key = stored_form(a.p, a.n);
-                w->m[s].secret = stored_form(b.p, b.n);
+                ObjM storing = w->m[s];
+                storing.key = stored_form(a.p, a.n);
+                storing.secret = stored_form(b.p, b.n);
+                if (oom)
+                    resync_after_failure(*w, s, w->m[s], storing);
+                else
+                    w->m[s] = storing;
                 probe("n.sets");
             } else if (op.name == "setdim") {
                 if (!w->m[s].live)
@@ -407,11 +593,13 @@ struct PropsHarness : Harness
                 int kind = (int)op.i("kind");
                 // set_dimension zeroes the slot first: an earlier name must
                 // have been released by the module (the leak oracle checks)
+                arm();
                 int ok = storage_properties_set_dimension(
                   &w->obj[s], idx, nm.p, nm.n, (enum DimensionType)kind,
                   (uint32_t)op.i("a"), (uint32_t)op.i("c"),
                   (uint32_t)op.i("sh"));
-                if (valid && !ok)
+                const bool oom = refused();
+                if (valid && !ok && !oom)
                     oracle_fail("C13.call_failed", "set_dimension failed (%s)",
                                 line.c_str());
                 if (!valid && ok)
@@ -420,13 +608,20 @@ struct PropsHarness : Harness
                                 "(%s)",
                                 line.c_str());
                 if (valid) {
-                    DimM& d = m.dims[(size_t)idx];
+                    ObjM storing = m;
+                    DimM& d = storing.dims[(size_t)idx];
                     d.set = true;
                     d.name = stored_form(nm.p, nm.n);
                     d.kind = kind;
                     d.a = (uint32_t)op.i("a");
                     d.c = (uint32_t)op.i("c");
                     d.sh = (uint32_t)op.i("sh");
+                    if (oom) {
+                        ObjM was = m;
+                        resync_after_failure(*w, s, was, storing);
+                        probe("reach.set_dimension_refused_allocation");
+                    } else
+                        m = storing;
                     probe("n.dims_set");
                 }
             } else if (op.name == "setms") {
@@ -443,17 +638,22 @@ struct PropsHarness : Harness
                 if (!w->m[d].live)
                     memset(&w->obj[d], 0, sizeof(w->obj[d]));
                 ObjM before = w->m[s];
+                arm();
                 int ok = storage_properties_copy(&w->obj[d], &w->obj[s]);
-                if (!ok)
+                const bool oom = refused();
+                if (!ok && !oom)
                     oracle_fail("C13.call_failed",
                                 "storage_properties_copy failed (%s)",
                                 line.c_str());
-                ObjM& md = w->m[d];
-                bool had_dims = md.live && !md.dims.empty();
-                md = before;
+                bool had_dims = w->m[d].live && !w->m[d].dims.empty();
+                ObjM md = before;
                 md.live = true;
                 // copy_string materialises absent strings as "" (equal as
                 // strings: both empty)
+                if (md.uri.empty())
+                    md.uri = Bytes{ 0 };
+                if (md.meta.empty())
+                    md.meta = Bytes{ 0 };
                 if (md.key.empty())
                     md.key = Bytes{ 0 };
                 if (md.secret.empty())
@@ -461,6 +661,13 @@ struct PropsHarness : Harness
                 for (auto& dd : md.dims)
                     if (dd.name.empty())
                         dd.name = Bytes{ 0 };
+                if (oom) {
+                    ObjM was = w->m[d];
+                    was.live = true;
+                    resync_after_failure(*w, d, was, md);
+                    probe("reach.copy_refused_allocation");
+                } else
+                    w->m[d] = md;
                 probe("n.copies_applied");
                 if (!before.dims.empty())
                     probe("reach.copy_source_has_dimensions");
@@ -518,7 +725,8 @@ struct Reg
           "three object slots; non-trivial = at least one copy between two "
           "objects was applied; distinct = distinct run fingerprint (hash of "
           "the applied calls and allocation count)";
-        c.profiles = { { "hist", 300000, 6000000, false } };
+        c.profiles = { { "hist", 300000, 6000000, false },
+                       { "oom", 100000, 2000000, true } };
         c.real_components = {
             "acquire-core-libs/src/acquire-device-properties/device/props/"
             "storage.c"
@@ -532,12 +740,19 @@ struct Reg
             "allocator seam, history/model machinery, shrinking and replay",
             "init is only applied to fresh storage (it memsets its argument)",
             "dimension names are NUL-terminated (set_dimension documents this)",
-            "allocation failure is not injected (the property does not state "
-            "behaviour under out-of-memory)"
+            "profile oom refuses single allocations inside calls; after such "
+            "a call only what the property still promises is demanded (valid "
+            "owned terminated strings, nothing leaked or released twice, "
+            "source untouched, each field old or new), whether the call "
+            "reports the failure is not judged"
         };
         c.reach_probes = { "reach.copy_source_has_dimensions",
                            "reach.copy_dest_has_dimensions",
-                           "reach.copy_drops_dest_dimensions", "n.dims_set" };
+                           "reach.copy_drops_dest_dimensions", "n.dims_set",
+                           "fault.malloc_refused", "fault.realloc_refused",
+                           "reach.copy_refused_allocation",
+                           "reach.init_refused_allocation",
+                           "reach.set_dimension_refused_allocation" };
         register_check(c);
     }
 } g_reg;
